@@ -595,6 +595,22 @@ pub fn worker(id: &str, widx: u64, ncases: usize, seed: u64, outdir: &str) -> i3
         res.evaluations += 1;
         if out.hung {
             res.hung = true;
+            if let Some(f) = &out.fail {
+                // The oracle fired and then the threads never came back (the operation that was
+                // reported as blocking keeps spinning): the case cannot be shrunk - every re-run
+                // would wait for the watchdog again - so it is the replay as it stands.
+                if match_open(&findings, f).is_none() {
+                    let prop = reported_property(&check, f);
+                    let mut c = case.clone();
+                    c.spec.decisions = Some(out.decisions.clone());
+                    let rp = Replay { property: prop.clone(), oracle: f.oracle.clone(), msg: f.msg.clone(), engine: "E1".into(), tree_rev: rev.clone(), case: c };
+                    let dir = format!("{}/work/replays", verif_dir());
+                    let _ = std::fs::create_dir_all(&dir);
+                    let path = format!("{}/{}-{}-{:016x}.json", dir, id, f.oracle, rp.case.hash64());
+                    std::fs::write(&path, serde_json::to_string_pretty(&rp).unwrap()).unwrap();
+                    res.violation = Some((prop, f.oracle.clone(), f.msg.clone(), path));
+                }
+            }
             break;
         }
         *res.modes.entry(format!("{:?}", case.spec.mode)).or_insert(0) += 1;
@@ -1290,7 +1306,7 @@ pub fn replay(path: &str) -> i32 {
             println!("  {}", l);
         }
     }
-    if out.hung {
+    if out.hung && out.fail.is_none() {
         return 2;
     }
     match out.fail {
